@@ -55,6 +55,8 @@ class SeqCheck:
         return [('rand', ['rand', s, 25000, 20, 200]), ('life', ['life', s, 25000]), ('exh', ['bfs', 3, 100000000]), ('exh4', ['bfs', 4, 60000])]
 
     def prepare(self, ctx):
+        rc, out = common.sh(['python3', os.path.join(common.ROOT, 'tools', 'extract_facts.py')])
+        ctx.notes['extract_facts'] = out.strip().split('\n')
         bindir, log = ctx.build_harness(('seqrun',))
         if bindir is None:
             ctx.violation('the harness does not build against the current /repo tree with feature verif-hooks (tie broken)',
@@ -138,6 +140,8 @@ def c04_safe_ops(ctx, seqrun, stats, divs):
                           '\n'.join([h, cfg] + ops) + f'\n## {key}: the last operation is a safe fn, yet its position contract does not hold in this state\n')
     ctx.notes['safe_ops_off_contract'] = {k: len(v) for k, v in stats.safe_breaks.items()}
 CHECKS['C04'].extra = c04_safe_ops
+for pid in ('C01', 'C04', 'C05', 'C06', 'C11', 'C12'):
+    CHECKS[pid].propfiles = [f'Props/{pid}.v', 'Props/KTie.v']    # K-tie: kernels translated from the source on every run
 for pid in ('C06', 'C11', 'C12'):
     CHECKS[pid].with_async = True   # anchors include the async wrappers / AsyncDetached
 
